@@ -302,12 +302,14 @@ func run(r *core.Run) int {
 			cases = append(cases, mk([]sims.CertPlan{mkPlan(o, c)}, "validate", "http", "", false))
 		}
 	}
-	if !r.Quick() {
-		// the 32 MiB cap of the CRL fetcher, streamed (a handful: each costs ~64 MiB)
-		for _, o := range [][]slot{nil, {{"http", "err"}}, {{"http", "unknown-status"}}} {
-			for _, c := range [][]slot{{{"http", "oversize"}}, {{"http", "clean"}, {"http", "oversize"}}} {
-				cases = append(cases, mk([]sims.CertPlan{mkPlan(o, c)}, "validate", "http", "", false))
-			}
+	// the 32 MiB cap of the CRL fetcher: a genuine clean CRL padded beyond it,
+	// streamed (a handful: each costs ~64 MiB)
+	for i, o := range [][]slot{nil, {{"http", "err"}}, {{"http", "unknown-status"}}} {
+		if r.Quick() && i > 0 {
+			break
+		}
+		for _, c := range [][]slot{{{"http", "oversize"}}, {{"http", "clean"}, {"http", "oversize"}}} {
+			cases = append(cases, mk([]sims.CertPlan{mkPlan(o, c)}, "validate", "http", "", false))
 		}
 	}
 	r.Set("single_certificate_cases", len(cases))
